@@ -1312,7 +1312,8 @@ class XsdAtomicRestriction(XsdAtomic):
                         self.parse_error(msg)
                         base_type = self.maps.any_atomic_type
                     else:
-                        base_type = self.base_type
+                        # The base is the redefined type (with its facets), not its base
+                        base_type = self.redefine
                 else:
                     if self.redefine is not None:
                         msg = _("wrong redefinition without self-reference")
